@@ -243,6 +243,11 @@ type C13RCase struct {
 	Text string `json:"text"`
 	// Literal, if non-empty: the same value written as a literal expression (JSON of gen.Expr)
 	Literal *gen.Expr `json:"literal,omitempty"`
+	// Arith (numbers and monetaries written through a variable): script 1 also computes
+	// `$v - $u` / `$v + $u` with the variable as the left operand - 1: before the value is
+	// written, 2: between the two writes. Using a value in an expression does not change it.
+	Arith   int    `json:"arith,omitempty"`
+	ArithOp string `json:"arithop,omitempty"`
 }
 
 func init() {
@@ -307,6 +312,10 @@ func init() {
 		if gen.Chance(t, "nolit", 50) {
 			c.Literal = nil
 		}
+		if c.Literal == nil && (c.Type == "number" || c.Type == "monetary") && gen.Chance(t, "arith", 40) {
+			c.Arith = 1 + gen.Uniform(t, "arith.where", 2)
+			c.ArithOp = gen.Pick(t, "arith.op", []string{"-", "+"})
+		}
 		return c
 	}
 }
@@ -335,6 +344,25 @@ func checkC13R(cc any) *ev.Verdict {
 	s1.Script.Stmts = []*gen.Stmt{
 		{Kind: gen.StCall, Call: &gen.Call{Fn: "set_account_meta", Args: []*gen.Expr{gen.Acct("holder"), gen.Str("k"), valExpr}}},
 		{Kind: gen.StCall, Call: &gen.Call{Fn: "set_tx_meta", Args: []*gen.Expr{gen.Str("k"), valExpr}}},
+	}
+	if c.Arith != 0 && c.Literal == nil && (c.Type == "number" || c.Type == "monetary") {
+		other := "25"
+		if c.Type == "monetary" {
+			other = c.Text[:strings.IndexByte(c.Text, ' ')] + " 25"
+		}
+		s1.Script.Vars = append(s1.Script.Vars, gen.VarDecl{Type: c.Type, Name: "u"})
+		s1.Vars["u"] = other
+		op := c.ArithOp
+		if op != "+" {
+			op = "-"
+		}
+		tmp := &gen.Stmt{Kind: gen.StCall, Call: &gen.Call{Fn: "set_tx_meta", Args: []*gen.Expr{gen.Str("tmp"), gen.Infix(op, gen.Var("v"), gen.Var("u"))}}}
+		if c.Arith == 1 {
+			s1.Script.Stmts = append([]*gen.Stmt{tmp}, s1.Script.Stmts...)
+		} else {
+			s1.Script.Stmts = []*gen.Stmt{s1.Script.Stmts[0], tmp, s1.Script.Stmts[1]}
+		}
+		v.Label("arith")
 	}
 	r1, _ := hx.Run(s1, doubles.Superset)
 	if r1.Panic != "" || r1.ParseErrors > 0 {
